@@ -200,6 +200,20 @@ def grid_pool(rng, thorough):
     return out
 
 
+def junction_grid(rng):
+    """two tetrahedra glued along a face that is itself part of the grid (a multi-domain transmission geometry): every
+    edge of the shared face has THREE neighbouring elements.  Domains: 0 = outer faces of the upper tetrahedron,
+    1 = outer faces of the lower one, 2 = the shared face.  Any two of the three domains form a closed surface.  The
+    element order is shuffled so that the shared face is not always the element with the largest index."""
+    V = np.array([[0.0, 0.0, 0.0], [1.0, 0.0, 0.0], [0.1, 0.9, 0.0], [0.35, 0.3, 0.8], [0.3, 0.35, -0.7]]).T
+    tris = [((0, 1, 3), 0), ((1, 2, 3), 0), ((2, 0, 3), 0), ((1, 0, 4), 1), ((2, 1, 4), 1), ((0, 2, 4), 1), ((0, 1, 2), 2)]
+    rng.shuffle(tris)
+    E = np.array([t for t, _ in tris], np.uint32).T
+    D = np.array([d for _, d in tris], np.uint32)
+    ea, va = adjacency_counts(E)
+    return dict(name="two-tets-shared-face", V=meshgen.perturb(V, 0.05, rng), E=E, D=D, cls="junction", ea=ea, va=va)
+
+
 def relabel_plain(V, E, D, rng):
     """vertex and element permutation WITHOUT local rotation; returns V2, E2, D2, pv (old->new), pe (old->new)."""
     nv, ne = V.shape[1], E.shape[1]
@@ -448,7 +462,7 @@ class _Runner:
         return img_t, sg_t, img_d, sg_d
 
     # -- one (spec, pair, grid) ----------------------------------------------------------------------------------------
-    def run_case(self, spec, pair, kvar, g, segment=False):
+    def run_case(self, spec, pair, kvar, g, segment=False, force_opts=None):
         api, rng, res = self.api, self.rng, self.res
         dsh, tsh = pair
         dk, tk = _kinds_for(dsh, rng), _kinds_for(tsh, rng)
@@ -463,6 +477,8 @@ class _Runner:
             if dk in ("P1", "RWG") or tk in ("P1", "SNC", "RWG"):
                 opts.update(include_boundary_dofs=rng.choice([True, False]),
                             truncate_at_segment_edge=rng.choice([True, False]))
+        if force_opts is not None:
+            opts = dict(force_opts)
         base = dict(operator=spec["key"], domain=dk, dual=tk, grid=g["name"], wavenumber=str(k), space_options=str(opts),
                     seed=self.ctx.seed)
         ktag = "" if k is None else ("-complex-k" if isinstance(k, complex) else "-real-k")
@@ -732,6 +748,24 @@ def oracle(ctx, deep=False, only=None):
         per_spec.append(time.time() - t1)
         done.append(f"{key}:{pair[0]}/{pair[1]}")
         ctx.log(f"C03 oracle {key} {pair} done in {per_spec[-1]:.1f}s")
+    # junction edges (three elements on an edge): sparse edge-space operators on every pair of domains, always (cheap; the
+    # seeded change C03-b, edge-function sign taken from the smallest of ALL neighbours, shows only here)
+    t1 = time.time()
+    gj = junction_grid(ctx.rng)
+    jpairs = [("rwg", "snc"), ("rwg", "rwg")] if not (ctx.thorough or deep) else [("rwg", "snc"), ("rwg", "rwg"), ("snc", "snc")]
+    for segs in ([0, 2], [1, 2], [0, 1]):
+        for pair in jpairs:
+            try:
+                run.run_case(cat["id"], pair, None, gj, force_opts=dict(segments=segs))
+            except Exception as e:  # noqa
+                import traceback
+                run.cex(f"exception-id-{pair[0]}-{pair[1]}-junction", f"assembling on the junction grid raised "
+                        f"{type(e).__name__}: {str(e)[:200]}", grid=gj["name"], segments=segs,
+                        traceback=traceback.format_exc().splitlines()[-6:])
+    if (ctx.thorough or deep) and "max_E" in cat and time.time() - t_start < budget:
+        for segs in ([0, 2], [0, 1]):
+            run.run_case(cat["max_E"], ("rwg", "snc"), "complex", gj, force_opts=dict(segments=segs))
+    ctx.log(f"C03 oracle junction grid done in {time.time() - t1:.1f}s")
     res.stats.update({
         "c03_specialisations_done": len(done), "c03_specialisations_cut_by_budget": len(cut),
         "c03_worst_rel_rigid": run.worst["rigid"], "c03_worst_rel_scale": run.worst["scale"],
